@@ -251,6 +251,29 @@ type UploadFile struct {
 
 func (u *UploadFile) Name() string { return u.FileName }
 
+// SeekableUpload is an upload source that is also an io.Seeker (like *os.File)
+// and may be handed over positioned past its start.
+type SeekableUpload struct{ *UploadFile }
+
+func (u *SeekableUpload) Seek(offset int64, whence int) (int64, error) {
+	var abs int64
+	switch whence {
+	case io.SeekStart:
+		abs = offset
+	case io.SeekCurrent:
+		abs = int64(u.Pos) + offset
+	case io.SeekEnd:
+		abs = int64(len(u.Data)) + offset
+	}
+	if abs < 0 || abs > int64(len(u.Data)) {
+		return 0, fmt.Errorf("seek out of range")
+	}
+	u.Pos = int(abs)
+	u.TermDelivered = false
+	u.Env.Probe("upload-source-seeked")
+	return abs, nil
+}
+
 // UploadFileCT additionally declares its content type.
 type UploadFileCT struct {
 	*UploadFile
